@@ -20,16 +20,16 @@ MUTATORS = {'insert', 'append', 'extend', 'pop', 'remove', 'clear', 'sort', 'rev
 
 
 def run(chk):
-    r09a(chk)
-    r09b(chk)
-    r09c(chk)
-    r09d(chk)
-    r09e(chk)
-    r09g(chk)
-    r09h(chk)
+    chk.attempt(r09a, chk)
+    chk.attempt(r09b, chk)
+    chk.attempt(r09c, chk)
+    chk.attempt(r09d, chk)
+    chk.attempt(r09e, chk)
+    chk.attempt(r09g, chk)
+    chk.attempt(r09h, chk)
     from .c10 import r10e
 
-    r10e(chk, 'R09.f')
+    chk.attempt(r10e, chk, 'R09.f')
 
 
 # ---------------------------------------------------------------------------
